@@ -181,7 +181,7 @@ def demo_event(prog, opts, k, P, g, rc, timedout, so, se):
             weight = -2
     # Open MPI's own abort banner does not count as the program's diagnostic
     diag_text = '\n'.join(l for l in se.splitlines() if 'aborting' in l or 'Graph has' in l or 'Invalid' in l or 'rror' in l)
-    return {'e': 'Demo', 'prog': prog, 'opts': opts, 'k': k, 'P': P or 0, 'n': g['n'], 'edges': [list(e) for e in g['edges']], 'exit': rc if not timedout else -9,
+    return {'e': 'Demo', 'prog': prog, 'opts': opts, 'k': k, 'P': P or 0, 'rank_exits': [], 'n': g['n'], 'edges': [list(e) for e in g['edges']], 'exit': rc if not timedout else -9,
             'timedout': timedout, 'diag': bool(se.strip()) if P is None else bool(diag_text.strip()), 'ranalgo': 'Using ' in so and ('MCB' in so.split('Using ', 1)[1][:40] or 'PAR' in so.split('Using ', 1)[1][:40]),
             'hasweight': has, 'weight': weight}
 
@@ -272,6 +272,37 @@ def check_C11(res, tier, seed, replay):
             events += list(ex.map(go, seqjobs))
         with cf.ThreadPoolExecutor(max_workers=4) as ex:
             events += list(ex.map(go, mpijobs))
+        # the MPI demo's own main() on vmpi: every rank's exit status, exact deadlock attribution, P up to 6
+        exe_v = vlib.build('h_mpidemo', [os.path.join(vlib.HARNESS, 'h_mpidemo.cpp')],
+                           flags=['-DVERIF_VTBB', '-pthread', '-DDEMO_SRC="%s"' % os.path.join(vlib.REPO, 'src', 'mcb-dimacs-mpi.cpp')],
+                           libs=('-lboost_timer', '-lboost_serialization', '-lboost_program_options', '-lboost_thread', '-lboost_system', '-lpthread'), shim=['vtbb', 'vmpi'])
+        vjobs = []
+        for g in (valid[:4] if tier == 'quick' else valid[:12]):
+            for a in algo_flags:
+                for P in (2, 4, 6):
+                    vjobs.append((algo_flags[a], P, g))
+        for g in invalid:
+            for P in (1, 2, 3, 6):
+                vjobs.append(([], P, g))
+
+        def gov(j):
+            flags, P, g = j
+            path = os.path.join(wd, 'v%d.dimacs' % abs(hash((tuple(flags), P, json.dumps(g['edges'])))))
+            with open(path, 'w') as f:
+                f.write(demo_file_text(g))
+            outp = path + '.out'
+            pr = subprocess.run([exe_v, '--out', outp, '--P', str(P), '--'] + flags + [path], stdout=subprocess.PIPE, stderr=subprocess.PIPE, text=True, errors='replace', timeout=300)
+            if pr.returncode != 0 or not os.path.exists(outp):
+                raise vlib.HarnessError('h_mpidemo failed: %s %s' % (pr.returncode, pr.stderr[-500:]))
+            o = json.loads(open(outp).read())
+            ev = demo_event('mcb-dimacs-mpi', ' '.join(flags) + ' [vmpi]', 0, P, g, 0, False, pr.stdout, pr.stderr)
+            ev['rank_exits'] = [r['rc'] for r in o['ranks']]
+            ev['timedout'] = any('Deadlock' in r['err'] or 'Mismatch' in r['err'] for r in o['ranks'])
+            ev['exit'] = 0 if all(r['rc'] == 0 and not r['err'] for r in o['ranks']) else 1
+            ev['diag'] = bool(pr.stderr.strip())
+            return ev
+        with cf.ThreadPoolExecutor(max_workers=8) as ex:
+            events += list(ex.map(gov, vjobs))
         trace = os.path.join(wd, 'demo.ndjson')
         with open(trace, 'w') as f:
             for e in events:
@@ -280,7 +311,7 @@ def check_C11(res, tier, seed, replay):
         res.add_validation(v, len(events))
         res.cov['evaluations'] = len(events)
         res.cov['distinct_nontrivial'] = len({(e['prog'], e['opts'], e['P'], json.dumps(e['edges'])) for e in events})
-        res.cov['event_counts'] = {'sequential_runs': len(seqjobs), 'mpiexec_runs': len(mpijobs), 'invalid_input_runs': sum(1 for j in jobs if j[4] in invalid)}
+        res.cov['event_counts'] = {'sequential_runs': len(seqjobs), 'mpiexec_runs': len(mpijobs), 'vmpi_demo_runs': len(vjobs), 'invalid_input_runs': sum(1 for j in jobs if j[4] in invalid)}
         res.cov['rule'] = 'run = (program, option combination, input file, process count); valid files incl. disconnected/forest/no trailing newline; invalid files: self-loop, parallel edge, zero weight, negative weight, several at once; mcb-dimacs-mpi under real mpiexec'
         res.sample(events[0])
         res.sample(events[-1])
